@@ -1211,6 +1211,8 @@ class Interp:
                 except AttributeError:
                     raise ExcRaised(Ref('builtin:AttributeError'))
             raise Unmodelled('getattr on a symbolic value')
+        if isinstance(fn, ast.Name) and fn.id == 'vars' and fn.id not in self.env and len(args) == 1 and isinstance(args[0], Rec):
+            return args[0].f        # the live attribute dictionary of the instance
         if isinstance(fn, ast.Name) and fn.id == 'setattr' and fn.id not in self.env and len(args) == 3 and isinstance(args[1], str):
             obj = args[0]
             if isinstance(obj, Rec):
@@ -1294,6 +1296,16 @@ class Interp:
             params = params[1:]
         defaults = fnode.args.defaults
         env = dict(self.env) if closure else {}
+        if not skip_first:
+            # the call protocol: too many positional arguments, an unknown keyword, a missing required parameter are TypeErrors
+            if len(args) > len(params) and fnode.args.vararg is None:
+                raise ExcRaised(Ref('builtin:TypeError'))
+            konly_ = {k_.arg for k_ in fnode.args.kwonlyargs}
+            if fnode.args.kwarg is None and any(k_ not in params and k_ not in konly_ for k_ in kwargs):
+                raise ExcRaised(Ref('builtin:TypeError'))
+            required_ = params[:len(params) - len(defaults)]
+            if any(p_ not in kwargs for p_ in required_[len(args):]):
+                raise ExcRaised(Ref('builtin:TypeError'))
         given_ = set(params[:len(args)]) | set(kwargs)
         for p_, d in zip(params[len(params) - len(defaults):], defaults):
             if p_ in given_:
@@ -2289,8 +2301,25 @@ def _copy_value(self, v, deep, memo):
         return v
     if isinstance(v, Rec):
         cref = v.f.get('cls')
-        if isinstance(cref, str) and any(self._find_method(cref, d_)[1] is not None for d_ in ('__copy__', '__deepcopy__', '__reduce__', '__getstate__')):
+        if isinstance(cref, str) and any(self._find_method(cref, d_)[1] is not None for d_ in ('__copy__', '__deepcopy__', '__reduce__', '__reduce_ex__')):
             raise Unmodelled('copy of an instance whose class customises copying')
+        if isinstance(cref, str) and (self._find_method(cref, '__getstate__')[1] is not None or self._find_method(cref, '__setstate__')[1] is not None):
+            # the copy protocol of object.__reduce_ex__: state from __getstate__ (default: the attribute dictionary), copied, then
+            # handed to __setstate__ of a new instance (default: its attribute dictionary is updated)
+            found_, state_ = self._dunder(v, '__getstate__')
+            if not found_:
+                state_ = {k_: x_ for k_, x_ in v.f.items() if k_ != 'cls'}
+            if isinstance(state_, dict):
+                state_ = {k_: x_ for k_, x_ in state_.items() if k_ != 'cls'}
+            state_ = _copy_value(self, state_, True, memo) if deep else state_
+            out = Rec(cls=cref)
+            memo[id(v)] = out
+            found_, _ = self._dunder(out, '__setstate__', state_)
+            if not found_:
+                if not isinstance(state_, dict):
+                    raise Unmodelled('__getstate__ returns something that is not a dict and there is no __setstate__')
+                out.f.update(state_)
+            return out
         out = Rec()
         memo[id(v)] = out
         for k_, x_ in v.f.items():
@@ -2315,6 +2344,12 @@ def _copy_value(self, v, deep, memo):
         return out
     if isinstance(v, _PURE_TYPES):
         return v
+    if isinstance(v, PyModel) and getattr(v, '_copy_fields', None):
+        out = object.__new__(type(v))
+        memo[id(v)] = out
+        for name_ in v._copy_fields:
+            setattr(out, name_, _copy_value(self, getattr(v, name_), True, memo) if deep else getattr(v, name_))
+        return out
     raise Unmodelled(f'copy of {type(v).__name__}')
 
 
